@@ -96,6 +96,19 @@ class FakeCF:
         return bad
 
 
+class _TocCache:
+    """stands for cflib.crazyflie.toccache.TocCache: knows one table"""
+
+    def __init__(self):
+        self.data = None
+
+    def fetch(self, crc):
+        return self.data
+
+    def insert(self, crc, toc):
+        pass
+
+
 def period_value(ms):
     """the period_in_ms argument of an event: an int, or ['f', a, b] = the Python float a/b (exactly), or
     ['np', a, b] = the numpy.float64 a/b"""
@@ -269,9 +282,36 @@ class Impl:
             self._mk_cbs(len(self.cfgs) - 1, cfg)
             return
         if k == 'settoc':
+            # ['settoc', entries] or ['settoc', entries, mode].  mode 'new' (default): Log.toc becomes a new Toc object;
+            # 'cache': the table is installed the way TocFetcher's cache-hit path does it -- through the real
+            # TocFetcher of this session (TOC info reply + a cache that knows the CRC) when one is waiting for the
+            # info reply, otherwise by `Log.toc.toc = table` on the existing Toc object
             t, order = self.build_toc(ev[1])
             self.model_tocs.append(order)
-            self.log.toc = t
+            mode = ev[2] if len(ev) > 2 else 'new'
+            if mode != 'cache':
+                self.log.toc = t
+                return
+            from cflib.crazyflie.toc import Toc, TocFetcher
+            if self.log.toc is None:
+                self.log.toc = Toc()
+            fetcher = None
+            for port, cb in list(self.cf.port_cbs):
+                owner = getattr(cb, '__self__', None)
+                if isinstance(owner, TocFetcher) and owner.toc is self.log.toc and owner.state == 'GET_TOC_INFO':
+                    fetcher = owner
+            if fetcher is None or not t.toc:
+                self.log.toc.toc = t.toc
+                return
+            self.cache.data = t.toc
+            pk = CRTPPacket()
+            pk.set_header(5, 0)
+            n = len(ev[1])
+            if fetcher._useV2:
+                pk.data = bytearray([3]) + struct.pack('<HI', n & 0xFFFF, 0x12345678)
+            else:
+                pk.data = bytearray([1]) + struct.pack('<BI', n & 0xFF, 0x12345678)
+            fetcher._new_packet_cb(pk)
             return
         if k == 'linkdown':
             self.cf.link = None
@@ -280,7 +320,8 @@ class Impl:
         if k == 'refresh':
             self.cf.link = object()
             self.cf.platform.version = 5 if ev[1] else 3
-            self.log.refresh_toc(lambda *a: None, None)
+            self.cache = _TocCache()
+            self.log.refresh_toc(lambda *a: None, self.cache)
             return
         if k == 'pkt':
             pk = CRTPPacket()
